@@ -7,6 +7,8 @@ CONSTANTS
   RenewMayFail = TRUE
   Gen = FALSE
   MayAbort = TRUE
+  MayFailEarly = TRUE
+  Dev_SeqConsumedOnEarlyFailure = FALSE
   Dev_ResetSeqOnAbort = FALSE
   Dev_GateGap = FALSE
   Dev_FailedRenewSeq = TRUE
